@@ -311,6 +311,7 @@ def run(ck):
     stats = {"ok": 0, "err": {}, "differing_lines": 0, "max_p2_ratio": 0.0, "max_p3_ratio": 0.0,
              "max_rel_error_well_separated": 0.0, "max_p2_ratio_rand_class": 0.0, "by_kind": {}, "by_class": {}}
     classes = set()
+    failed_sites, corr_only = set(), {}
 
     def report(key, what, rep, found):
         if key in reported:
@@ -368,12 +369,15 @@ def run(ck):
             rep["criterion"] = crit
             rep["all_failed_criteria"] = [f[0] for f in fails][:10]
             failures.append(rep)
+            failed_sites.add(site)
             report("%s:%s" % (site, crit), "%s, n=%d, %s data: %s" % (site, n, cls, detail), rep, True)
-        elif not same:
+        elif not same and site not in corr_only:
             rep["property_holds_on_implementation_output"] = True
-            report("corr:%s" % site,
-                   "correspondence Model.lean vs %s broken (n=%d, %s data): assembled matrix / right-hand side / evaluation differ bit-wise; the training data is still reproduced" % (site, n, cls),
-                   rep, False)
+            corr_only[site] = ("correspondence Model.lean vs %s broken (n=%d, %s data): assembled matrix / right-hand side / evaluation differ bit-wise; the training data is still reproduced" % (site, n, cls), rep)
+    # a site whose outputs differ from the model without any failure of the property itself
+    for site, (what, rep) in corr_only.items():
+        if site not in failed_sites:
+            report("corr:%s" % site, what, rep, False)
 
     # ---- exact scalar: real templates + real LUSolve on rationals vs the model on Rat
     xreqs = []
